@@ -43,8 +43,9 @@ type Call struct {
 	Res []interface{} `json:"res,omitempty"`
 }
 
-var symByte = map[int]byte{1: 0x00, 2: 0x61, 3: 0xff}
-var byteSym = map[byte]int{0x00: 1, 0x61: 2, 0xff: 3}
+// order-preserving; 0x61/0x62 are adjacent so that an iterator upper bound computed from a prefix ending in 0xff has a live key just behind it
+var symByte = map[int]byte{1: 0x00, 2: 0x61, 3: 0x62, 4: 0xff}
+var byteSym = map[byte]int{0x00: 1, 0x61: 2, 0x62: 3, 0xff: 4}
 
 func keyBytes(k []int) []byte {
 	out := make([]byte, len(k))
@@ -235,7 +236,7 @@ func (s *session) do(c *Call) (res []interface{}) {
 		return ok
 	case "getpending":
 		del, v := s.batch(c.B).GetPending(k)
-		if v == nil {
+		if len(v) == 0 { // nil and empty are one observation (see KV.tla BGetPending)
 			return []interface{}{"pend", del, float64(-1)}
 		}
 		return []interface{}{"pend", del, s.vm.abstract(v)}
@@ -305,7 +306,7 @@ func universe(maxLen int) [][]byte {
 		if len(cur) == maxLen {
 			return
 		}
-		for s := 1; s <= 3; s++ {
+		for s := 1; s <= 4; s++ {
 			rec(append(append([]int{}, cur...), s))
 		}
 	}
@@ -417,14 +418,14 @@ func cmdRandom(args []string) {
 	rk := func() []int { // keys of length 1..3
 		k := make([]int, 1+r.Intn(3))
 		for i := range k {
-			k[i] = 1 + r.Intn(3)
+			k[i] = 1 + r.Intn(4)
 		}
 		return k
 	}
 	rp := func() []int { // prefixes of length 0..2
 		k := make([]int, r.Intn(3))
 		for i := range k {
-			k[i] = 1 + r.Intn(3)
+			k[i] = 1 + r.Intn(4)
 		}
 		return k
 	}
